@@ -154,6 +154,7 @@ def build_mesh(prog: dict, geo: Geometry):
 
     mesh = cb.Mesh()
     ops = []
+    label_lists: Dict[tuple, list] = {}
     for op in prog["ops"]:
         pts0 = [geo.pos(p) for p in op["pts0"]]
         # sub-tolerance jitter (0.3 * merge tolerance): must not change connectivity
@@ -194,8 +195,14 @@ def build_mesh(prog: dict, geo: Geometry):
                 c1, c2 = op["pts"].index(e["pa"]), op["pts"].index(e["pb"])
                 if e.get("swap"):
                     c1, c2 = c2, c1
-                label = e["labels"] if len(e["labels"]) > 1 else e["labels"][0]
-                if op.get("share_project"):
+                first = e.get("first_labels", e["labels"])
+                if e.get("extra") or op.get("share_project"):
+                    label = first if len(first) > 1 else first[0]
+                else:
+                    # the caller's own list, one object for every edge given these labels in the whole program: it stays the
+                    # caller's (not modified, not shared between the edges it was handed to)
+                    label = label_lists.setdefault(tuple(first), list(first))
+                if op.get("share_project") and not e.get("extra"):
                     # one Project object handed to every edge with these labels (as in Face(points, [Project(...)] * 4)):
                     # edge data without geometry of its own may be shared between the edges of an operation
                     shared = op.setdefault("_shared", {})
@@ -208,7 +215,11 @@ def build_mesh(prog: dict, geo: Geometry):
                         a, b = lo % 4, hi % 4
                         face.add_edge(a if b == (a + 1) % 4 else b, obj)
                 else:
+                    if e.get("extra"):
+                        label = label_lists.setdefault(tuple(first), list(first))
                     loft.project_edge(c1, c2, label)
+                    if e.get("extra"):
+                        loft.project_edge(c1, c2, e["extra"])
         for a in range(3):
             loft.chop(a, count=prog.get("count", 2))
         if op["zone"]:
@@ -227,6 +238,9 @@ def build_mesh(prog: dict, geo: Geometry):
         op.pop("_shared", None)
         ops.append(loft)
         mesh.add(loft)
+    for key, lst in label_lists.items():
+        if tuple(lst) != key:
+            raise RuntimeError(f"a list of labels handed to project_edge was modified: {list(key)} -> {lst}")
     for op, loft in zip(prog["ops"], ops):
         if op["deleted"]:
             mesh.delete(loft)
